@@ -29,3 +29,86 @@ AGGR = {
 }
 
 SPECS = {"Aggr": AGGR}
+
+
+# ----------------------------------------------------------------------------- metrics/mean.py
+import ast as _ast
+
+ROM = "rom"
+ROM_REC = Record(ROM, "mk_rom", {
+    "numer": STR, "denom": opt(STR), "numer_covariate": opt(STR), "denom_covariate": opt(STR),
+    "alternative": ALT, "confidence_level": NUM, "equal_var": BOOL, "use_t": BOOL,
+    "alpha": NUM, "ratio": NUM, "power": NUM,
+}, prefix="cfg_")
+MR_REC = Record("mean_result", "mk_mean_result", {
+    "control": NUM, "treatment": NUM, "effect_size": NUM,
+    "effect_size_ci_lower": EXT, "effect_size_ci_upper": EXT,
+    "rel_effect_size": NUM, "rel_effect_size_ci_lower": EXT, "rel_effect_size_ci_upper": EXT,
+    "pvalue": NUM, "statistic": NUM,
+}, prefix="mr_")
+
+
+def _record_decl(rec, tyname):
+    from py2coq import coq_ty
+    fields = "; ".join(f"{rec.proj(f)} : {coq_ty(t)}" for f, t in rec.fields.items())
+    return f"Record {tyname} := {rec.ctor} {{ {fields} }}.\n"
+
+
+def _mean_preamble(tr):
+    from py2coq import Unsupported
+    # the configuration record mirrors the attributes RatioOfMeans.__init__ stores on self
+    init = tr.find_def("RatioOfMeans.__init__")
+    stored = set()
+    for n in _ast.walk(init):
+        if isinstance(n, _ast.Assign):
+            for t in n.targets:
+                if isinstance(t, _ast.Attribute) and isinstance(t.value, _ast.Name) and t.value.id == "self":
+                    stored.add(t.attr)
+    missing = [f for f in ROM_REC.fields if f not in stored]
+    if missing:
+        raise Unsupported(f"RatioOfMeans.__init__ no longer stores {missing}")
+    # result record mirrors class MeanResult
+    cls = tr.find_def("MeanResult")
+    fields = [n.target.id for n in cls.body if isinstance(n, _ast.AnnAssign)]
+    if fields != list(MR_REC.fields):
+        raise Unsupported(f"MeanResult fields changed: {fields}")
+    def setter(field, ty):
+        args = " ".join(("v" if f == field else f"({ROM_REC.proj(f)} c)") for f in ROM_REC.fields)
+        return f"Definition rom_with_{field} (c : rom) (v : {ty}) : rom := mk_rom {args}.\n"
+    setters = (setter("alternative", "alternative") + setter("confidence_level", "num")
+               + setter("equal_var", "bool") + setter("use_t", "bool"))
+    return _record_decl(ROM_REC, "rom") + _record_decl(MR_REC, "mean_result") + setters + "\n"
+
+
+SD_RET = tup(NUM, DIST, opt(DIST))
+MEAN = {
+    "source": "metrics/mean.py",
+    "uses": ["Aggr"],
+    "section": "Variable fam : dist_family num.",
+    "records": {ROM: ROM_REC, "mean_result": MR_REC},
+    "ctors": {"MeanResult": MR_REC},
+    "self_types": {"RatioOfMeans": ("rec", ROM)},
+    "ann": {
+        "MeanResult": ("rec", "mean_result"),
+        "tuple[float, scipy.stats.rv_frozen, scipy.stats.rv_frozen | None]": SD_RET,
+    },
+    "preamble": _mean_preamble,
+    "targets": [
+        {"py": "RatioOfMeans._covariate_cov", "coq": "rom_covariate_cov"},
+        {"py": "RatioOfMeans._covariate_coef", "coq": "rom_covariate_coef"},
+        {"py": "RatioOfMeans._metric_mean", "coq": "rom_metric_mean"},
+        {"py": "RatioOfMeans._metric_var", "coq": "rom_metric_var"},
+        {"py": "RatioOfMeans._scale_and_distr", "coq": "rom_scale_and_distr"},
+        {"py": "RatioOfMeans._analyze_stats", "coq": "rom_analyze_stats"},
+        {"py": "RatioOfMeans.analyze_aggregates", "coq": "rom_analyze_aggregates"},
+        {"py": "RatioOfMeans._power_from_stats", "coq": "rom_power_from_stats"},
+    ],
+}
+AGGR["targets"].append({"raw": lambda tr: (
+    "(* Aggregates.with_zero_div: wraps every number in utils.Float/Int so that x/0 gives inf/nan instead of raising.\n"
+    "   On the number line of this model (no zero divisors under the theorems' hypotheses) it is the identity;\n"
+    "   the wrapper arithmetic itself is the subject of C18. *)\n"
+    "Definition agg_with_zero_div (v_self : (aggregates num)) : (aggregates num) := v_self.\n"),
+    "func": ("Aggregates.with_zero_div", Func("agg_with_zero_div", [("self", AGG, None)], AGG, None, AGG))})
+
+SPECS["Mean"] = MEAN
